@@ -10,9 +10,10 @@ using refmap::LMap;
 const char* const PROP_ID = "C06";
 
 namespace {
+bool g_stale_longer_file = false;
 bool g_write_via_file = false;   // per case: serialise through Map::Write(filename) instead of a memory writer
 std::vector<uint8_t> write_map(const Map& m) {
-	if (g_write_via_file) { std::string p = scratch_path("c06_w.map"); remove(p.c_str()); m.Write(p); std::vector<uint8_t> out; V_CHECK(read_file(p, out), "Map::Write(filename) produced no file"); return out; }
+	if (g_write_via_file) { std::string p = scratch_path("c06_w.map"); remove(p.c_str()); if (g_stale_longer_file) write_file(p, std::vector<uint8_t>(400000, 0x5C)); /* an existing longer file must be replaced, not overwritten in place */ m.Write(p); std::vector<uint8_t> out; V_CHECK(read_file(p, out), "Map::Write(filename) produced no file"); return out; }
 	Stream::DynamicMemoryWriter w; m.Write(w);
 	std::vector<uint8_t> out(w.Length()); auto r = w.GetReader(); r.Read(out.data(), out.size());
 	return out;
@@ -38,7 +39,7 @@ void map_case(const LMap& m0, Tape& t, Stats& st) {
 	refmap::Layout L;
 	std::vector<uint8_t> in = refmap::encode(m, &L);
 	bool viaFile = t.below(4) == 0;
-	g_write_via_file = t.below(5) == 0; if (g_write_via_file) st.cls("write_via_file");
+	g_write_via_file = t.below(5) == 0; g_stale_longer_file = t.flag(); if (g_write_via_file) st.cls(g_stale_longer_file ? "write_via_file_over_longer_file" : "write_via_file");
 	Map map;
 	if (viaFile) { std::string p = scratch_path("c06.map"); write_file(p, in); map = Map::ReadMap(p); }
 	else map = read_mem(in);
@@ -50,6 +51,9 @@ void map_case(const LMap& m0, Tape& t, Stats& st) {
 	std::vector<uint8_t> w1m = w1; mask_unknown(w1m, L.unknownAt); mask_unknown(consumed, L.unknownAt);
 	first_diff(w1m, consumed, "bytes written after reading vs bytes consumed by the reader (flag normalised, unknown word masked)");
 	{ std::vector<uint8_t> c = refmap::canonical(m); first_diff(w1, c, "written bytes vs reference serialisation of the logical map"); }
+	{ Stream::DynamicMemoryWriter w2; map.Write(w2); map.Write(w2); std::vector<uint8_t> two(w2.Length()); auto r2 = w2.GetReader(); r2.Read(two.data(), two.size());
+	  V_CHECK(two.size() == 2 * w1.size() && std::equal(w1.begin(), w1.end(), two.begin()) && std::equal(w1.begin(), w1.end(), two.begin() + w1.size()), "writing the same map twice into one writer does not give two identical images (Write changed the object?)");
+	  mapgen::compare(map, m, "after writing (Write must not alter the map)"); }
 	// byte-stable from then on
 	Map map2 = read_mem(w1);
 	LMap mc = m; mc.trailing.clear();
@@ -60,6 +64,7 @@ void map_case(const LMap& m0, Tape& t, Stats& st) {
 	unsigned ne = unsigned(t.below(31)); uint64_t width = uint64_t(1) << m.lgWidth; unsigned edits = 0;
 	for (unsigned e = 0; e < ne; ++e) {
 		unsigned op = unsigned(t.below(4));
+		if (e % 7 == 6 && m.versionTag >= 0x1010) { map = read_mem(write_map(map)); m.savedFlag = m.savedFlag != 0; m.trailing.clear(); st.cls("edit:write_read_cycle_between_edits"); }   // edit, write, read, edit ... must equal edit, edit, ...
 		if ((op == 0 || op == 1) && (width < 32 || m.height == 0)) op = 2;
 		switch (op) {
 		case 0: { uint64_t x = t.below(width), y = t.below(m.height); unsigned ct = unsigned(t.below(32)); size_t idx = refmap::tile_index(x, y, m.height);
